@@ -258,6 +258,14 @@ func (c *uvCtx) pointwise(x float64, tag string) {
 			}
 		}
 	}
+	if ls, ok := c.d.(interface{ LogSurvival(float64) float64 }); ok && hs && isFinite(sv) {
+		var lv float64
+		if pv := catch(func() { lv = ls.LogSurvival(x) }); pv != nil {
+			r.fail("LogSurvival-panic", arg, "%v", pv)
+		} else if e := math.Exp(lv); !(e == sv || relErr(e, sv) <= tolProbExp || e < 1e-290 && sv < 1e-290) {
+			r.fail("exp(LogSurvival)=Survival", arg, "exp(LogSurvival)=%v Survival=%v", e, sv)
+		}
+	}
 	if hc && hs && !below && !above && isFinite(cv) && isFinite(sv) {
 		if math.Abs(sv+cv-1) > tolSurvRel*math.Min(sv, cv)+tolSurvAbs+2*c.cdfAllow(x) {
 			r.fail("Survival=1-CDF", arg, "CDF=%v Survival=%v sum-1=%g", cv, sv, sv+cv-1)
